@@ -134,6 +134,11 @@ func (r *pathRun) eqTerm(t types.Type, x, y value) *Term {
 		if x.t == nil {
 			return c.True
 		}
+		if rx, ok := x.v.(rtype); ok {
+			// reflect.Type values of the emulated reflect package
+			ry, _ := ys.v.(rtype)
+			return c.Bool(types.Identical(rx.t, ry.t))
+		}
 		if !types.Comparable(x.t) {
 			panic(rtError("comparing uncomparable type " + x.t.String()))
 		}
